@@ -239,10 +239,14 @@ def inv1(ctx, prog, cfg):
         n = 0
         for short, sites in sorted(writers[fld].items()):
             ent = table.get(short)
-            ctx.check(ent is not None, "INV1", short, "writes %s" % fld, prog.fns[short].loc,
-                      "`%s` writes the header field `%s` but is not one of the reviewed writers: the representation "
-                      "invariant (size <= N, start < N, occupied range) may no longer be preserved" % (short, fld),
-                      "reviewed writer: %s" % (ent or ""), cfg)
+            # a writer outside the reviewed table is acceptable when every one of its stores has a
+            # shape that is *decided* safe (not merely assumed): the shape rule is the substance,
+            # the table only names the writers whose stores need an assumption or a special case
+            decided = all(ok and not why.startswith("ASSUMED") and "value-level" not in why for (_, _, ok, why) in sites)
+            ctx.check(ent is not None or decided, "INV1", short, "writes %s" % fld, prog.fns[short].loc,
+                      "`%s` writes the header field `%s`, is not one of the reviewed writers, and not all of its stores have a "
+                      "decided-safe shape: the representation invariant (size <= N, start < N) may no longer be preserved" % (short, fld),
+                      "reviewed writer: %s" % ent if ent else "unlisted writer, all stores of decided-safe shape", cfg)
             for (b, i, ok, why) in sites:
                 n += 1
                 ctx.check(ok, "INV1", short, "%s value #%d" % (fld, sites.index((b, i, ok, why))), short_loc(prog.fns[short], b, i),
